@@ -1695,3 +1695,799 @@ Example timely_hyp_met :
 Proof.
   vm_compute. repeat split; try discriminate. intros [H|[H|[H|[]]]]; discriminate.
 Qed.
+
+(* ------------------------------------------------------------------ G2 is outside the property's space *)
+Corollary g2_cannot_occur (w : world) (scanned : bool) (ls : list label) (n o : nat) :
+  glue_pop_before_call = true ->
+  let s := run src_cfg w ls (init w scanned) in
+  g_late s = false ->
+  ~ (exists f d, In (EvImm f n o) (log s) /\ In (EvCallM o n d) (log s)).
+Proof.
+  intros Hp s GL (f & d & H1 & H2).
+  destruct (@never_both w scanned ls n o Hp GL d H2) as [_ X]. exact (X f H1).
+Qed.
+
+(* ------------------------------------------------------------------ a BaseException is contained *)
+Lemma abort_fields t s2 : lock s2 = Some t ->
+  thr (abort t s2) t = PDone false /\ lock (abort t s2) = None /\ cache (abort t s2) = cache s2
+  /\ pend (abort t s2) = pend s2 /\ log (abort t s2) = EvRet t false :: log s2
+  /\ (forall t', t' <> t -> thr (abort t s2) t' = thr s2 t').
+Proof.
+  intros LK. unfold abort, release. rewrite LK, Nat.eqb_refl. simpl. rewrite Nat.eqb_refl.
+  repeat split; auto. intros t' NE. apply Nat.eqb_neq in NE. rewrite NE. reflexivity.
+Qed.
+
+Lemma base_escapes (w : world) (s : st) (t nm : nat) mf bf cur todo k fs mk :
+  glue_pop_before_call = true -> glue_under_lock = true ->
+  GI w s -> thr s t = PCall nm mf bf cur todo k ->
+  selected w mf bf = Some (fs, mk) -> fbeh fs = BBase ->
+  let s' := step src_cfg w (LThr t) s in
+  thr s' t = PDone false /\ lock s' = None /\ cache s' = cache s /\ pend s' = pend s
+  /\ (exists ev, log s' = EvRet t false :: ev :: log s /\ is_call ev = true)
+  /\ (forall t', t' <> t -> thr s' t' = thr s t')
+  /\ GI w s'.
+Proof.
+  intros Hp Hl G E S B s'.
+  assert (G' : GI w s') by (unfold s'; simpl; apply GI_tstep; assumption).
+  assert (LK : lock s = Some t) by (apply (@gi_L1 w s G t); rewrite E; reflexivity).
+  split; [|split; [|split; [|split; [|split; [|split; [|exact G']]]]]];
+    unfold s'; simpl; unfold tstep; rewrite E; unfold call, selected in *;
+    (destruct mf as [o|]; [|destruct bf as [f|]; [|discriminate]]); inversion S; subst; rewrite B;
+    match goal with |- context [abort t (apply_irs ?l ?s0)] =>
+      destruct (apply_irs_fields l s0) as (_&F2&F3&F4&F5&F6&_);
+      assert (LK2 : lock (apply_irs l s0) = Some t) by (rewrite F4; exact LK);
+      destruct (abort_fields (apply_irs l s0) LK2) as (A1&A2&A3&A4&A5&A6) end;
+    simpl in *; try congruence.
+  - eexists. split; [rewrite A5, F6; reflexivity|reflexivity].
+  - eexists. split; [rewrite A5, F6; reflexivity|reflexivity].
+  - intros t' NE. rewrite A6 by exact NE. rewrite F5. reflexivity.
+  - intros t' NE. rewrite A6 by exact NE. rewrite F5. reflexivity.
+Qed.
+
+(* ------------------------------------------------------------------ at most once (built-in glue) *)
+Fixpoint nB (f : nat) (l : list event) : nat :=
+  match l with
+  | [] => 0
+  | EvCallB f' _ _ :: r => (if f' =? f then 1 else 0) + nB f r
+  | EvImm f' _ _ :: r => (if f' =? f then 1 else 0) + nB f r
+  | _ :: r => nB f r
+  end.
+
+Definition heldf (f : nat) (p : pc) : bool :=
+  match p with PCall _ _ (Some f') _ _ _ => f' =? f | _ => false end.
+
+Lemma npc_heldf f p : is_pcall p = false -> heldf f p = false.
+Proof. destruct p; simpl; try reflexivity; discriminate. Qed.
+
+Lemma In_snd_m_del p a x : In x (map snd (m_del p a)) -> In x (map snd p).
+Proof.
+  induction p as [|[k v] r IH]; simpl; [tauto|].
+  destruct (k =? a); simpl; [right; auto|intros [H|H]; [left; exact H|right; auto]].
+Qed.
+
+Lemma NoDup_snd_m_del p a : NoDup (map snd p) -> NoDup (map snd (m_del p a)).
+Proof.
+  induction p as [|[k v] r IH]; simpl; [auto|].
+  intros ND. inversion ND; subst. destruct (k =? a); [auto|].
+  simpl. constructor; [|auto]. intros H. apply H1. eapply In_snd_m_del. exact H.
+Qed.
+
+Lemma m_del_value_gone p a f : m_get p a = Some f -> NoDup (map snd p) -> ~ In f (map snd (m_del p a)).
+Proof.
+  induction p as [|[k v] r IH]; simpl; [discriminate|].
+  intros G ND. inversion ND; subst. destruct (Nat.eqb_spec k a).
+  - inversion G; subst. intros H. apply H1. eapply In_snd_m_del. exact H.
+  - simpl. intros [H|H].
+    + subst v. apply H1. change f with (snd (a, f)). apply in_map. apply m_get_In. exact G.
+    + exact (IH G H2 H).
+Qed.
+
+Lemma tstep_quiet_more c w t s :
+  is_pcall (thr s t) = false -> is_scan_cons (thr s t) = false ->
+  let s' := tstep c w t s in
+  nreg s' = nreg s /\ (log s' = log s \/ exists b, log s' = EvRet t b :: log s).
+Proof.
+  intros NC NS. unfold tstep.
+  destruct (thr s t) as [| |l| | |todo n|nm mf bf cur todo n|ok] eqn:E; try discriminate; simpl; auto.
+  - destruct (l =? cache s); simpl; eauto.
+  - destruct (c_locked c); [destruct (lock s)|]; simpl; auto.
+  - destruct todo; [|discriminate]. simpl. rel_rw.
+    split; [|right; eauto].
+    unfold release; simpl. destruct (lock s) as [t'|]; [destruct (t' =? t)|]; reflexivity.
+Qed.
+
+Lemma call_nB c w t nm mf bf cur todo k s g :
+  let s' := call c w t nm mf bf cur todo k s in
+  nreg s' = nreg s
+  /\ nB g (log s') = nB g (log s) + match mf, bf with None, Some f => if f =? g then 1 else 0 | _, _ => 0 end.
+Proof.
+  assert (RN : forall s0, nreg (release s0 t) = nreg s0).
+  { intros s0. unfold release. destruct (lock s0) as [t'|]; [destruct (t' =? t)|]; reflexivity. }
+  unfold call, abort.
+  destruct mf as [o'|]; [|destruct bf as [f|]].
+  - destruct (fbeh _); [|destruct (c_guarded c)|]; simpl; rewrite ?RN; rel_rw; irs_rw; simpl; split; lia.
+  - destruct (fbeh _); [|destruct (c_guarded c)|]; simpl; rewrite ?RN; rel_rw; irs_rw; simpl; split; lia.
+  - simpl. split; lia.
+Qed.
+
+Lemma visit_nreg c w t nm todo k s : nreg (visit c w t nm todo k s) = nreg s.
+Proof. unfold visit. reflexivity. Qed.
+
+Section OnceB.
+Variable c : cfg.
+Variable w : world.
+Hypothesis Hpop : c_pop c = true.
+Variable f : nat.
+
+Definition fresh (s : st) (g : nat) : Prop :=
+  ~ In g (map snd (pend s)) /\ (forall t, heldf g (thr s t) = false) /\ nB g (log s) = 0.
+
+Record IB (s : st) : Prop := mkIB {
+  ib0 : forall g, nreg s <= g -> fresh s g;
+  ib1 : NoDup (map snd (pend s));
+  ib2 : forall t, heldf f (thr s t) = true -> ~ In f (map snd (pend s)) /\ nB f (log s) = 0;
+  ib3 : forall t1 t2, heldf f (thr s t1) = true -> heldf f (thr s t2) = true -> t1 = t2;
+  ib4 : In f (map snd (pend s)) -> nB f (log s) = 0;
+  ib5 : nB f (log s) <= 1
+}.
+
+Lemma IB_init scanned : IB (init w scanned).
+Proof.
+  constructor; simpl; auto; try discriminate; try tauto.
+  - intros g _. repeat split; auto.
+  - constructor.
+Qed.
+
+Lemma IB_env e s : IB s -> IB (apply_env w e s).
+Proof.
+  intros [B0 B1 B2 B3 B4 B5].
+  destruct e as [i|n]; simpl.
+  - destruct (apply_ir_fields i s) as (_&P&_&_&T&L&N&_).
+    constructor; unfold fresh; rewrite ?P, ?T, ?L, ?N; auto.
+  - set (f0 := nreg s).
+    assert (F0 : fresh s f0) by (apply B0; apply le_n).
+    destruct (m_get (pend s) n) eqn:PE; [|destruct (m_get (mods s) n) as [o'|] eqn:MO; [destruct (has_own w s o') eqn:HO|]].
+    + constructor; unfold fresh; simpl; auto. intros g H. apply B0. lia.
+    + constructor; unfold fresh; simpl; auto. intros g H. apply B0. lia.
+    + (* run at once *)
+      destruct F0 as (F1 & F2 & F3).
+      constructor; unfold fresh; irs_rw; simpl; auto.
+      * intros g H. destruct (B0 g) as (X1 & X2 & X3); [lia|].
+        destruct (Nat.eqb_spec f0 g); [unfold f0 in *; lia|]. repeat split; auto.
+      * intros t H. destruct (B2 t H) as [X1 X2]. split; [exact X1|].
+        destruct (Nat.eqb_spec f0 f); [subst f; rewrite F2 in H; discriminate|exact X2].
+      * intros H. destruct (Nat.eqb_spec f0 f); [subst f; contradiction|auto].
+      * destruct (Nat.eqb_spec f0 f); [subst f; rewrite F3; auto|exact B5].
+    + (* made pending *)
+      destruct F0 as (F1 & F2 & F3).
+      constructor; unfold fresh; simpl; rewrite ?map_app; simpl; auto.
+      * intros g H. destruct (B0 g) as (X1 & X2 & X3); [lia|]. repeat split; auto.
+        rewrite in_app_iff. simpl. intros [Y|[Y|[]]]; [auto|unfold f0 in *; lia].
+      * apply NoDup_snoc; assumption.
+      * intros t H. destruct (B2 t H) as [X1 X2]. split; [|exact X2].
+        rewrite in_app_iff. simpl. intros [Y|[Y|[]]]; [auto|]. subst f. rewrite F2 in H. discriminate.
+      * rewrite in_app_iff. simpl. intros [Y|[Y|[]]]; [auto|]. subst f. exact F3.
+Qed.
+
+Lemma IB_tstep t s : IB s -> IB (tstep c w t s).
+Proof.
+  intros [B0 B1 B2 B3 B4 B5].
+  destruct (is_pcall (thr s t)) eqn:IC; [|destruct (is_scan_cons (thr s t)) eqn:IS].
+  - (* call *)
+    destruct (thr s t) as [| |l| | |todo k|nm mf bf cur todo k|ok] eqn:E; try discriminate.
+    unfold tstep. rewrite E.
+    destruct (call_spec c w t nm mf bf cur todo k s) as (_ & PE & (p' & T & PP) & _).
+    assert (NP : is_pcall p' = false) by (destruct PP; subst; reflexivity).
+    assert (HN : forall g t', heldf g (thr (call c w t nm mf bf cur todo k s) t') = true ->
+                 heldf g (thr s t') = true /\ t' <> t).
+    { intros g t' H. rewrite T in H. unfold upd in H. destruct (Nat.eqb_spec t' t).
+      - rewrite npc_heldf in H by exact NP. discriminate.
+      - auto. }
+    assert (NBg : forall g, nB g (log (call c w t nm mf bf cur todo k s)) =
+              nB g (log s) + match mf, bf with None, Some f1 => if f1 =? g then 1 else 0 | _, _ => 0 end)
+      by (intros g; apply call_nB).
+    assert (NR : nreg (call c w t nm mf bf cur todo k s) = nreg s) by (apply (call_nB c w t nm mf bf cur todo k s 0)).
+    assert (INC : forall g, match mf, bf with None, Some f1 => if f1 =? g then 1 else 0 | _, _ => 0 end = 1 ->
+                   heldf g (thr s t) = true).
+    { intros g H. rewrite E. simpl. destruct mf; [discriminate|]. destruct bf as [f1|]; [|discriminate].
+      destruct (f1 =? g); [reflexivity|discriminate]. }
+    assert (INC01 : forall g, match mf, bf with None, Some f1 => if f1 =? g then 1 else 0 | _, _ => 0 end = 0 \/
+                   match mf, bf with None, Some f1 => if f1 =? g then 1 else 0 | _, _ => 0 end = 1).
+    { intros g. destruct mf; [auto|]. destruct bf as [f1|]; [|auto]. destruct (f1 =? g); auto. }
+    constructor; unfold fresh; rewrite ?PE, ?NR; auto.
+    + intros g H. destruct (B0 g H) as (X1 & X2 & X3). repeat split; auto.
+      * intros t'. destruct (heldf g (thr (call c w t nm mf bf cur todo k s) t')) eqn:Q; [|reflexivity].
+        apply HN in Q. destruct Q as [Q _]. rewrite X2 in Q. discriminate.
+      * rewrite NBg, X3. destruct (INC01 g) as [Z|Z]; [lia|]. apply INC in Z. rewrite X2 in Z. discriminate.
+    + intros t' H. apply HN in H. destruct H as [H NE]. destruct (B2 t' H) as [X1 X2]. split; [exact X1|].
+      rewrite NBg, X2. destruct (INC01 f) as [Z|Z]; [lia|]. apply INC in Z. elim NE. apply B3; assumption.
+    + intros t1 t2 H1 H2. apply HN in H1. apply HN in H2. apply B3; tauto.
+    + intros H. rewrite NBg, (B4 H). destruct (INC01 f) as [Z|Z]; [lia|]. apply INC in Z. apply B2 in Z. tauto.
+    + rewrite NBg. destruct (INC01 f) as [Z|Z]; [lia|]. rewrite Z. apply INC in Z. apply B2 in Z. lia.
+  - (* visit *)
+    destruct (thr s t) as [| |l| | |todo k|nm mf bf cur todo k|ok] eqn:E; try discriminate.
+    destruct todo as [|nm todo]; [discriminate|].
+    unfold tstep. rewrite E.
+    destruct (visit_spec c w t nm todo k s Hpop) as (_ & PE & LG & T & _).
+    assert (NR := visit_nreg c w t nm todo k s).
+    assert (HV : forall g, heldf g (visit_pc w s nm todo k) = true -> m_get (pend s) nm = Some g).
+    { intros g. unfold visit_pc. destruct (some_or _ _); [|discriminate]. simpl.
+      destruct (m_get (pend s) nm) as [f1|]; [|discriminate]. intros H. apply Nat.eqb_eq in H. congruence. }
+    assert (HN : forall g t', heldf g (thr (visit c w t nm todo k s) t') = true ->
+                 (t' = t /\ m_get (pend s) nm = Some g) \/ (t' <> t /\ heldf g (thr s t') = true)).
+    { intros g t' H. rewrite T in H. unfold upd in H. destruct (Nat.eqb_spec t' t); [left|right]; auto. }
+    assert (INP : forall g, m_get (pend s) nm = Some g -> In g (map snd (pend s))).
+    { intros g H. change g with (snd (nm, g)). apply in_map. apply m_get_In. exact H. }
+    constructor; unfold fresh; rewrite ?PE, ?LG, ?NR; auto using NoDup_snd_m_del.
+    + intros g H. destruct (B0 g H) as (X1 & X2 & X3). repeat split; auto.
+      * intros Y. apply X1. eapply In_snd_m_del. exact Y.
+      * intros t'. destruct (heldf g (thr (visit c w t nm todo k s) t')) eqn:Q; [|reflexivity].
+        apply HN in Q. destruct Q as [[_ Q]|[_ Q]]; [elim X1; apply INP; exact Q|rewrite X2 in Q; discriminate].
+    + intros t' H. apply HN in H. destruct H as [[-> H]|[NE H]].
+      * split; [apply m_del_value_gone; assumption|apply B4; apply INP; exact H].
+      * destruct (B2 t' H) as [X1 X2]. split; [|exact X2]. intros Y. apply X1. eapply In_snd_m_del. exact Y.
+    + intros t1 t2 H1 H2. apply HN in H1. apply HN in H2.
+      destruct H1 as [[-> H1]|[N1 H1]]; destruct H2 as [[-> H2]|[N2 H2]]; auto.
+      * apply B2 in H2. elim (proj1 H2). apply INP. exact H1.
+      * apply B2 in H1. elim (proj1 H1). apply INP. exact H2.
+    + intros H. apply B4. eapply In_snd_m_del. exact H.
+  - (* everything else *)
+    destruct (tstep_quiet c w t s IC IS) as (_ & PE & _ & _ & _ & (p' & NP & T) & _).
+    destruct (tstep_quiet_more c w t s IC IS) as (NR & LG).
+    assert (NBg : forall g, nB g (log (tstep c w t s)) = nB g (log s)).
+    { intros g. destruct LG as [LG|[b LG]]; rewrite LG; reflexivity. }
+    assert (HN : forall g t', heldf g (thr (tstep c w t s) t') = true -> heldf g (thr s t') = true).
+    { intros g t' H. destruct T as [T|T]; rewrite T in H; [|exact H].
+      unfold upd in H. destruct (t' =? t); [rewrite npc_heldf in H by exact NP; discriminate|exact H]. }
+    constructor; unfold fresh; rewrite ?PE, ?NR, ?NBg; auto.
+    + intros g H. destruct (B0 g H) as (X1 & X2 & X3). repeat split; auto.
+      * intros t'. destruct (heldf g (thr (tstep c w t s) t')) eqn:Q; [|reflexivity].
+        apply HN in Q. rewrite X2 in Q. discriminate.
+      * rewrite NBg. exact X3.
+    + intros t' H. apply HN in H. rewrite ?NBg. exact (B2 t' H).
+Qed.
+End OnceB.
+
+Theorem at_most_once_B (w : world) (scanned : bool) (ls : list label) (f : nat) :
+  glue_pop_before_call = true ->
+  nB f (log (run src_cfg w ls (init w scanned))) <= 1.
+Proof.
+  intros Hp.
+  assert (R : reachable src_cfg w scanned (run src_cfg w ls (init w scanned))) by (exists ls; reflexivity).
+  assert (I : IB f (run src_cfg w ls (init w scanned))).
+  { revert R. apply reachable_ind with (P := IB f).
+    - apply IB_init.
+    - intros s0 l I. destruct l; simpl; [apply IB_env|apply IB_tstep]; assumption. }
+  apply (ib5 I).
+Qed.
+
+(* ------------------------------------------------------------------ the pending table along scans *)
+Lemma m_get_app_other p n f a : a <> n -> m_get (p ++ [(n, f)]) a = m_get p a.
+Proof.
+  intros NE. induction p as [|[k v] r IH]; simpl.
+  - destruct (Nat.eqb_spec n a); [congruence|reflexivity].
+  - destruct (k =? a); auto.
+Qed.
+
+Section PendInvariant.
+Variable c : cfg.
+Variable w : world.
+Hypothesis Hpop : c_pop c = true.
+Hypothesis Hlock : c_locked c = true.
+
+Record GP (s : st) : Prop := mkGP {
+  gp_K : g_since_snap s = false -> forall t todo k, scan_of (thr s t) = Some (todo, k) ->
+         forall a b, In (a, b) (g_snap_scan s) -> In a todo \/ m_get (pend s) a = None;
+  gp_A : g_since_cache s = false -> forall a b, In (a, b) (g_snap_cache s) -> m_get (pend s) a = None
+}.
+
+Lemma ir_flags i s :
+  (g_since_cache (apply_ir i s) = false -> g_since_cache s = false)
+  /\ (g_since_snap (apply_ir i s) = false -> g_since_snap s = false).
+Proof.
+  destruct i as [n o|n]; simpl.
+  - split; intros H; apply orb_false_iff in H; tauto.
+  - destruct (m_get (mods s) n); simpl; split; auto; discriminate.
+Qed.
+
+Lemma GP_ir i s : GP s -> GP (apply_ir i s).
+Proof.
+  intros [K A]. destruct (apply_ir_fields i s) as (_&P&_&_&T&_&_&_&SC&SS). destruct (ir_flags i s) as [F1 F2].
+  constructor; rewrite ?P, ?T, ?SC, ?SS.
+  - intros F. exact (K (F2 F)).
+  - intros F. exact (A (F1 F)).
+Qed.
+
+Lemma GP_irs l s : GP s -> GP (apply_irs l s).
+Proof.
+  revert s; induction l as [|i l IH]; intros s H; [exact H|].
+  unfold apply_irs in *. simpl. apply IH. apply GP_ir. exact H.
+Qed.
+
+Definition same_pcore (s s' : st) : Prop :=
+  pend s' = pend s /\ thr s' = thr s /\ g_since_cache s' = g_since_cache s /\ g_since_snap s' = g_since_snap s
+  /\ g_snap_cache s' = g_snap_cache s /\ g_snap_scan s' = g_snap_scan s.
+
+Lemma GP_ext s s' : same_pcore s s' -> GP s -> GP s'.
+Proof. intros (a&b&d&e&f&g) [K A]. constructor; rewrite ?a, ?b, ?d, ?e, ?f, ?g; assumption. Qed.
+
+Lemma GP_env e s : GI w s -> GP s -> GP (apply_env w e s).
+Proof.
+  intros G H. destruct e as [i|n]; simpl; [apply GP_ir; exact H|].
+  destruct (m_get (pend s) n).
+  - eapply GP_ext; [|exact H]. repeat split.
+  - destruct (m_get (mods s) n) as [o'|] eqn:MO.
+    + destruct (has_own w s o').
+      * eapply GP_ext; [|exact H]. repeat split.
+      * apply GP_irs. eapply GP_ext; [|exact H]. repeat split.
+    + (* a new pending entry for a name that is not imported, hence in no live snapshot *)
+      destruct H as [K A]. constructor; simpl.
+      * intros F t todo k SC a b I. destruct (K F t todo k SC a b I) as [X|X]; [left; exact X|right].
+        rewrite m_get_app_other; [exact X|]. intros ->. rewrite (gi_K2 G F _ _ I) in MO. discriminate.
+      * intros F a b I. rewrite m_get_app_other; [exact (A F a b I)|].
+        intros ->. rewrite (gi_A2 G F _ _ I) in MO. discriminate.
+Qed.
+
+(* thread t changes pc; the scan status of every thread is unchanged or t leaves / does not scan *)
+Lemma GP_upd s s' t p' :
+  GP s -> pend s' = pend s -> g_since_cache s' = g_since_cache s -> g_since_snap s' = g_since_snap s ->
+  g_snap_cache s' = g_snap_cache s -> g_snap_scan s' = g_snap_scan s ->
+  thr s' = upd (thr s) t p' -> (scan_of p' = scan_of (thr s t) \/ scan_of p' = None) -> GP s'.
+Proof.
+  intros [K A] P F1 F2 S1 S2 T SC. constructor; rewrite ?P, ?F1, ?F2, ?S1, ?S2; auto.
+  intros F t' todo k H. rewrite T in H. unfold upd in H. destruct (Nat.eqb_spec t' t).
+  - subst. destruct SC as [SC|SC]; rewrite SC in H; [eauto|discriminate].
+  - eauto.
+Qed.
+
+Lemma GP_call t nm mf bf cur todo k s :
+  GP s -> thr s t = PCall nm mf bf cur todo k -> GP (call c w t nm mf bf cur todo k s).
+Proof.
+  intros G E.
+  assert (RL : forall s0, pend (release s0 t) = pend s0 /\ g_since_cache (release s0 t) = g_since_cache s0
+             /\ g_since_snap (release s0 t) = g_since_snap s0 /\ g_snap_cache (release s0 t) = g_snap_cache s0
+             /\ g_snap_scan (release s0 t) = g_snap_scan s0 /\ thr (release s0 t) = thr s0).
+  { intros s0. unfold release. destruct (lock s0) as [t'|]; [destruct (t' =? t)|]; simpl; repeat split. }
+  assert (STEP : forall s2, GP s2 -> thr s2 = thr s ->
+            GP (set_thr s2 t (PScan todo k)) /\ GP (abort t s2)).
+  { intros s2 G2 T2. split.
+    - eapply GP_upd with (s := s2) (t := t) (p' := PScan todo k); try exact G2; try reflexivity.
+      left. rewrite T2, E. reflexivity.
+    - unfold abort. destruct (RL s2) as (a&b&d&e&f&g).
+      eapply GP_upd with (s := s2) (t := t) (p' := PDone false); try exact G2; simpl; auto.
+      rewrite g. reflexivity. }
+  assert (LOG : forall s0 e, GP s0 -> GP (add_log s0 e)).
+  { intros s0 e H. eapply GP_ext; [|exact H]. repeat split. }
+  unfold call.
+  destruct mf as [o'|]; [|destruct bf as [f|]].
+  - set (s2 := apply_irs _ _).
+    assert (G2 : GP s2) by (apply GP_irs, LOG, G).
+    assert (T2 : thr s2 = thr s) by (unfold s2; irs_rw; reflexivity).
+    destruct (fbeh _); [|destruct (c_guarded c)|]; try apply (STEP s2 G2 T2).
+    apply (STEP (add_log s2 _)); [apply LOG; exact G2|exact T2].
+  - set (s2 := apply_irs _ _).
+    assert (G2 : GP s2) by (apply GP_irs, LOG, G).
+    assert (T2 : thr s2 = thr s) by (unfold s2; irs_rw; reflexivity).
+    destruct (fbeh _); [|destruct (c_guarded c)|]; try apply (STEP s2 G2 T2).
+    apply (STEP (add_log s2 _)); [apply LOG; exact G2|exact T2].
+  - apply (STEP s G eq_refl).
+Qed.
+
+Lemma GP_tstep t s : GI w s -> GP s -> GP (tstep c w t s).
+Proof.
+  intros G H. unfold tstep.
+  destruct (thr s t) as [| |l| | |todo k|nm mf bf cur todo k|ok] eqn:E.
+  - eapply GP_upd with (s := s) (t := t) (p' := PEnter); try exact H; try reflexivity. right; reflexivity.
+  - eapply GP_upd with (s := s) (t := t) (p' := PRead _); try exact H; try reflexivity. right; reflexivity.
+  - destruct (l =? cache s).
+    + eapply GP_upd with (s := s) (t := t) (p' := PDone true); try exact H; try reflexivity. right; reflexivity.
+    + eapply GP_upd with (s := s) (t := t) (p' := PSlow); try exact H; try reflexivity. right; reflexivity.
+  - rewrite Hlock. destruct (lock s); [exact H|].
+    eapply GP_upd with (s := s) (t := t) (p' := PLocked); try exact H; try reflexivity. right; reflexivity.
+  - (* snapshot *)
+    destruct H as [K A]. constructor; simpl; auto.
+    intros _ t' todo k SC a b I. destruct (Nat.eqb_spec t' t).
+    + inversion SC; subst. left. change a with (fst (a, b)). apply in_map. exact I.
+    + exfalso. apply n. apply scan_region in SC.
+      assert (L1 := @gi_L1 w s G t' SC). assert (L2 : lock s = Some t) by (apply (@gi_L1 w s G t); rewrite E; reflexivity).
+      congruence.
+  - destruct todo as [|nm todo].
+    + (* write *)
+      destruct H as [K A].
+      assert (RL : forall s0, pend (release s0 t) = pend s0 /\ g_since_cache (release s0 t) = g_since_cache s0
+             /\ g_since_snap (release s0 t) = g_since_snap s0 /\ g_snap_cache (release s0 t) = g_snap_cache s0
+             /\ g_snap_scan (release s0 t) = g_snap_scan s0 /\ thr (release s0 t) = thr s0).
+      { intros s0. unfold release. destruct (lock s0) as [t'|]; [destruct (t' =? t)|]; simpl; repeat split. }
+      match goal with |- GP (add_log (set_thr (release ?X t) t (PDone true)) _) => destruct (RL X) as (a&b&d&e&f&g) end.
+      constructor; simpl; rewrite ?a, ?b, ?d, ?e, ?f, ?g; simpl.
+      * intros F t' todo' k' SC. destruct (Nat.eqb_spec t' t); [discriminate|]. eauto.
+      * intros F a0 b0 I. destruct (K F t [] k) with (a := a0) (b := b0) as [[]|X]; auto. rewrite E. reflexivity.
+    + (* visit *)
+      destruct (visit_spec c w t nm todo k s Hpop) as (_ & PE & _ & T & _ & _ & _ & SC & SS & _ & _ & _ & SNC & SNS).
+      destruct H as [K A]. constructor; rewrite ?PE, ?SC, ?SS, ?SNC, ?SNS.
+      * intros F t' todo' k' H a b I. rewrite T in H. unfold upd in H. destruct (Nat.eqb_spec t' t).
+        -- destruct (visit_pc_scan w s nm todo k) as [VS _]. rewrite VS in H. inversion H; subst todo' k'. subst t'.
+           destruct (K F t (nm :: todo) k) with (a := a) (b := b) as [[X|X]|X]; auto; try (rewrite E; reflexivity).
+           ++ subst. right. apply m_get_del_same.
+           ++ right. apply m_get_del_none. exact X.
+        -- destruct (K F t' todo' k' H a b I) as [X|X]; [left; exact X|right; apply m_get_del_none; exact X].
+      * intros F a b I. apply m_get_del_none. eauto.
+  - apply GP_call; assumption.
+  - eapply GP_upd with (s := s) (t := t) (p' := PEnter); try exact H; try reflexivity. right; reflexivity.
+Qed.
+
+Lemma GP_init scanned : GP (init w scanned).
+Proof. constructor; simpl; [intros _ t todo k H; discriminate|intros _ a b []]. Qed.
+End PendInvariant.
+
+(* ------------------------------------------------------------------ timeliness, built-in glue *)
+Section TimelyB.
+Variable c : cfg.
+Variable w : world.
+Hypothesis Hpop : c_pop c = true.
+Hypothesis Hlock : c_locked c = true.
+Hypothesis Hbase : 1 <= w_base w.
+Variables t n o f : nat.
+Variables m1 nrem0 : nat.
+Variable log1 : list event.
+
+Definition QBb (s : st) : Prop :=
+  g_since_cache s = false /\ g_since_snap s = false /\ m_get (mods s) n = Some o /\ m1 <= length (mods s)
+  /\ (exists new, log s = new ++ log1 /\ (~ calledB s f -> ~ In (EvRet t true) new))
+  /\ (~ calledB s f ->
+        cache s < w_base w + m1
+        /\ (In (n, o) (g_snap_scan s) \/ length (g_snap_scan s) < m1)
+        /\ (forall l, thr s t = PRead l -> w_base w + m1 <= l)
+        /\ (forall x, scan_of (thr s t) = Some x -> In (n, o) (g_snap_scan s))).
+
+Definition Qb (s : st) : Prop := nrem0 <= g_nrem s /\ (g_nrem s = nrem0 -> QBb s).
+
+Lemma calledB_ext s s' evs : log s' = evs ++ log s -> calledB s f -> calledB s' f.
+Proof. intros L (a & d & H). exists a, d. rewrite L. apply in_or_app. right. exact H. Qed.
+
+(* steps that touch neither the cache nor the snapshot of the scan in progress *)
+Lemma QBb_frame s s' evs :
+  QBb s -> keeps s s' -> log s' = evs ++ log s ->
+  cache s' = cache s -> g_snap_scan s' = g_snap_scan s ->
+  (~ calledB s f -> ~ In (EvRet t true) evs) ->
+  (~ calledB s f -> forall l, thr s' t = PRead l -> thr s t = PRead l \/ w_base w + m1 <= l) ->
+  (~ calledB s f -> forall x, scan_of (thr s' t) = Some x -> exists y, scan_of (thr s t) = Some y) ->
+  QBb s'.
+Proof.
+  intros (F1 & F2 & MG & LE & (new & LN & NR) & B3) (K1 & K2 & K3 & K4) L CA SS E1 E2 E3.
+  assert (NC : ~ calledB s' f -> ~ calledB s f).
+  { intros H X. apply H. eapply calledB_ext; eassumption. }
+  unfold QBb. rewrite K1, K2, CA, SS. repeat split; auto; try lia.
+  - exists (evs ++ new). split; [rewrite L, LN; apply app_assoc|].
+    intros H X. apply in_app_or in X. destruct X as [X|X]; [exact (E1 (NC H) X)|exact (NR (NC H) X)].
+  - apply (B3 (NC H)).
+  - apply (B3 (NC H)).
+  - intros l X. destruct (E2 (NC H) l X) as [Y|Y]; [apply (B3 (NC H)); exact Y|exact Y].
+  - intros x X. destruct (E3 (NC H) x X) as [y Y]. destruct (B3 (NC H)) as (_ & _ & _ & Z). eapply Z. exact Y.
+Qed.
+
+Definition WCB (s : st) : Prop :=
+  g_nrem s = nrem0 -> forall t0 k, thr s t0 = PScan [] k -> g_since_snap s = false ->
+  In (n, o) (g_snap_scan s) -> calledB s f.
+
+Lemma Qb_env e s : Qb s -> Qb (apply_env w e s).
+Proof.
+  intros [N0 QQ]. destruct (env_shape w e s) as ((evs & L & QE) & T & CA & SS & A & B).
+  split; [lia|]. intros H. assert (H0 : g_nrem s = nrem0) by lia.
+  eapply QBb_frame with (s := s) (evs := evs); auto.
+  - apply B. lia.
+  - intros _ X. apply QE in X. discriminate.
+  - intros _ l X. left. rewrite T in X. exact X.
+  - intros _ x X. rewrite T in X. eauto.
+Qed.
+
+Ltac frame_tacb s0 ev0 :=
+  eapply QBb_frame with (s := s0) (evs := ev0); auto; try (unfold keeps; simpl; repeat split; auto; fail).
+
+Lemma Qb_tstep t0 s : GI w s -> WCB s -> Qb s -> Qb (tstep c w t0 s).
+Proof.
+  intros G I [N0 QQ]. unfold tstep.
+  destruct (thr s t0) as [| |l0| | |todo k|nm mf bf cur todo k|ok] eqn:E.
+  - (* start *)
+    split; [exact N0|]. simpl. intros H. specialize (QQ H). frame_tacb s (@nil event); simpl.
+    + intros _ l X. destruct (t =? t0); [discriminate|left; exact X].
+    + intros _ x X. destruct (t =? t0); [discriminate|eauto].
+  - (* read len(sys.modules) *)
+    split; [exact N0|]. simpl. intros H. specialize (QQ H). frame_tacb s (@nil event); simpl.
+    + intros _ l X. destruct (t =? t0); [|left; exact X]. inversion X; subst.
+      right. destruct QQ as (_ & _ & _ & LE & _). lia.
+    + intros _ x X. destruct (t =? t0); [discriminate|eauto].
+  - (* compare with the cache *)
+    destruct (l0 =? cache s) eqn:CMP.
+    + split; [exact N0|]. simpl. intros H. specialize (QQ H).
+      frame_tacb s [EvRet t0 true]; simpl.
+      * intros NC [X|[]]. inversion X; subst t0.
+        destruct QQ as (_ & _ & _ & _ & _ & B3). destruct (B3 NC) as (CL & _ & RD & _).
+        specialize (RD _ E). apply Nat.eqb_eq in CMP. lia.
+      * intros _ l X. destruct (t =? t0); [discriminate|left; exact X].
+      * intros _ x X. destruct (t =? t0); [discriminate|eauto].
+    + split; [exact N0|]. simpl. intros H. specialize (QQ H). frame_tacb s (@nil event); simpl.
+      * intros _ l X. destruct (t =? t0); [discriminate|left; exact X].
+      * intros _ x X. destruct (t =? t0); [discriminate|eauto].
+  - (* acquire *)
+    rewrite Hlock. destruct (lock s); [split; assumption|].
+    split; [exact N0|]. simpl. intros H. specialize (QQ H). frame_tacb s (@nil event); simpl.
+    + intros _ l X. destruct (t =? t0); [discriminate|left; exact X].
+    + intros _ x X. destruct (t =? t0); [discriminate|eauto].
+  - (* snapshot *)
+    split; [exact N0|]. simpl. intros H. destruct (QQ H) as (F1 & F2 & MG & LE & LN & B3).
+    unfold QBb; simpl. split; [exact F1|split; [reflexivity|split; [exact MG|split; [exact LE|split; [exact LN|]]]]].
+    intros NC. destruct (B3 NC) as (CL & _ & RD & _).
+    split; [exact CL|split; [left; apply m_get_In; exact MG|split]].
+    + intros l X. destruct (t =? t0); [discriminate|apply RD; exact X].
+    + intros x _. apply m_get_In. exact MG.
+  - destruct todo as [|nm todo].
+    + (* write the cache *)
+      assert (K1 : k = w_base w + length (g_snap_scan s)) by (eapply (@gi_K1 w s G t0 [] k); rewrite E; reflexivity).
+      assert (EQ : forall X : st, lock X = lock s -> g_nrem (release X t0) = g_nrem X /\ same_but_thr_lock X (release X t0)
+                     /\ thr (release X t0) = thr X /\ log (release X t0) = log X).
+      { intros X _. destruct (release_core X t0) as [A B]. destruct (release_fields X t0) as (_&_&_&L&_).
+        repeat split; try apply A; auto. unfold release. destruct (lock X) as [t'|]; [destruct (t' =? t0)|]; reflexivity. }
+      match goal with |- Qb (add_log (set_thr (release ?X t0) t0 (PDone true)) _) =>
+        destruct (EQ X eq_refl) as (RN & (a&b&c0&ff&g&h&i) & RT & RL); simpl in * end.
+      split; [simpl; rewrite RN; exact N0|]. simpl. rewrite RN. intros H.
+      destruct (QQ H) as (F1 & F2 & MG & LE & (new & LN & NR) & B3).
+      assert (WC : In (n, o) (g_snap_scan s) -> calledB s f).
+      { intros X. eapply (I H); eauto. }
+      unfold QBb; simpl. rewrite a, c0, ff, g, i, RT, RL. simpl.
+      split; [exact F2|split; [exact F2|split; [exact MG|split; [exact LE|split]]]].
+      * exists (EvRet t0 true :: new). split; [rewrite LN; reflexivity|].
+        intros NC [X|X].
+        -- inversion X; subst t0.
+           assert (NC' : ~ calledB s f).
+           { intros (a0 & d0 & Y). apply NC. exists a0, d0. simpl. rewrite RL. right. exact Y. }
+           destruct (B3 NC') as (_ & _ & _ & SC). apply NC'. apply WC. eapply SC. rewrite E. reflexivity.
+        -- assert (NC' : ~ calledB s f).
+           { intros (a0 & d0 & Y). apply NC. exists a0, d0. simpl. rewrite RL. right. exact Y. }
+           exact (NR NC' X).
+      * intros NC.
+        assert (NC' : ~ calledB s f).
+        { intros (a0 & d0 & Y). apply NC. exists a0, d0. simpl. rewrite RL. right. exact Y. }
+        destruct (B3 NC') as (CL & [IN|LT] & RD & SC); [elim NC'; apply WC; exact IN|].
+        split; [lia|split; [right; exact LT|split]].
+        -- intros l X. destruct (t =? t0); [discriminate|apply RD; exact X].
+        -- intros x X. destruct (t =? t0); [discriminate|eapply SC; exact X].
+    + (* visit *)
+      destruct (visit_spec c w t0 nm todo k s Hpop) as (_ & _ & LG & T & MO & CA & _ & SC & SS & NR & _ & _ & _ & SNS).
+      split; [rewrite NR; exact N0|]. rewrite NR. intros H. specialize (QQ H).
+      eapply QBb_frame with (s := s) (evs := @nil event); auto.
+      * unfold keeps. rewrite SC, SS, MO. repeat split; auto.
+      * intros _ l X. rewrite T in X. unfold upd in X. destruct (t =? t0); [|left; exact X].
+        unfold visit_pc in X. destruct (some_or _ _); discriminate.
+      * intros _ x X. rewrite T in X. unfold upd in X. destruct (Nat.eqb_spec t t0); [|eauto].
+        subst. rewrite E. simpl. eauto.
+  - (* call *)
+    destruct (call_nrem c w t0 nm mf bf cur todo k s) as (A & CA & SS & B).
+    destruct (call_log c w t0 nm mf bf cur todo k s) as (evs & LG & EV).
+    destruct (call_spec c w t0 nm mf bf cur todo k s) as (_ & _ & (p' & T & PP) & _).
+    split; [lia|]. intros H. assert (H0 : g_nrem s = nrem0) by lia. specialize (QQ H0).
+    eapply QBb_frame with (s := s) (evs := evs); auto.
+    + apply B. lia.
+    + intros _ X. apply EV in X. destruct X as [X|[[b X]|X]]; try discriminate.
+      unfold call_event in X. destruct mf; [discriminate|destruct bf; discriminate].
+    + intros _ l X. rewrite T in X. unfold upd in X. destruct (t =? t0); [|left; exact X].
+      destruct PP; subst p'; discriminate.
+    + intros _ x X. rewrite T in X. unfold upd in X. destruct (Nat.eqb_spec t t0); [|eauto].
+      subst. rewrite E. simpl. eauto.
+  - (* start again *)
+    split; [exact N0|]. simpl. intros H. specialize (QQ H). frame_tacb s (@nil event); simpl.
+    + intros _ l X. destruct (t =? t0); [discriminate|left; exact X].
+    + intros _ x X. destruct (t =? t0); [discriminate|eauto].
+Qed.
+End TimelyB.
+
+Lemma env_pend w e s a : m_get (mods s) a <> None -> m_get (pend (apply_env w e s)) a = m_get (pend s) a.
+Proof.
+  intros H. destruct e as [i|n]; simpl.
+  - destruct (apply_ir_fields i s) as (_&P&_). rewrite P. reflexivity.
+  - destruct (m_get (pend s) n); [reflexivity|].
+    destruct (m_get (mods s) n) as [o'|] eqn:MO.
+    + destruct (has_own w s o'); simpl; irs_rw; reflexivity.
+    + simpl. apply m_get_app_other. intros ->. contradiction.
+Qed.
+
+Lemma settled_visit_mf w s nm o : m_get (mods s) nm = Some o -> settled w s o -> visit_mf w s nm = None.
+Proof.
+  intros M [H|H]; unfold visit_mf; rewrite M.
+  - rewrite H. reflexivity.
+  - destruct (glue_of w o); [|reflexivity]. apply mem_nat_In in H. rewrite H. reflexivity.
+Qed.
+
+Lemma call_logs_event c w t nm mf bf cur todo k s :
+  some_or mf bf = true -> In (call_event t nm mf bf cur) (log (call c w t nm mf bf cur todo k s)).
+Proof.
+  intros SO. unfold call, abort, call_event.
+  destruct mf as [o'|]; [|destruct bf as [f|]; [|discriminate]];
+    (destruct (fbeh _); [|destruct (c_guarded c)|]); simpl; rel_rw; irs_rw; simpl; auto.
+Qed.
+
+Lemma tstep_quiet_nrem c w t s :
+  is_pcall (thr s t) = false -> g_nrem (tstep c w t s) = g_nrem s.
+Proof.
+  intros NC. unfold tstep.
+  destruct (thr s t) as [| |l| | |todo n|nm mf bf cur todo n|ok] eqn:E; try discriminate; simpl; auto.
+  - destruct (l =? cache s); reflexivity.
+  - destruct (c_locked c); [destruct (lock s)|]; reflexivity.
+  - destruct todo; [|reflexivity]. simpl.
+    unfold release; simpl. destruct (lock s) as [t'|]; [destruct (t' =? t)|]; reflexivity.
+Qed.
+
+Section TrackB.
+Variable c : cfg.
+Variable w : world.
+Hypothesis Hpop : c_pop c = true.
+Variables n o f nrem0 : nat.
+
+Definition holdsB (s : st) : Prop := exists t' cur todo k, thr s t' = PCall n None (Some f) cur todo k.
+
+Definition TBb (s : st) : Prop :=
+  m_get (mods s) n = Some o /\ settled w s o
+  /\ (m_get (pend s) n = Some f \/ holdsB s \/ calledB s f).
+Definition TB (s : st) : Prop := nrem0 <= g_nrem s /\ (g_nrem s = nrem0 -> TBb s).
+
+Lemma TB_env e s : TB s -> TB (apply_env w e s).
+Proof.
+  intros [N0 B]. destruct (env_shape w e s) as ((evs & L & _) & T & _ & _ & A & K).
+  split; [lia|]. intros H. assert (H0 : g_nrem s = nrem0) by lia.
+  destruct (B H0) as (MG & ST & D). destruct (K ltac:(lia)) as (_ & _ & KM & _).
+  destruct (nM_env w 0 e s) as (_ & P & _).
+  split; [apply KM; exact MG|split].
+  - destruct ST as [X|X]; [left; exact X|right; rewrite P; exact X].
+  - destruct D as [D|[D|D]].
+    + left. rewrite env_pend; [exact D|congruence].
+    + right. left. unfold holdsB. rewrite T. exact D.
+    + right. right. destruct D as (a & d & X). exists a, d. rewrite L. apply in_or_app. right. exact X.
+Qed.
+
+Lemma TB_tstep t0 s : TB s -> TB (tstep c w t0 s).
+Proof.
+  intros [N0 B].
+  destruct (is_pcall (thr s t0)) eqn:IC; [|destruct (is_scan_cons (thr s t0)) eqn:IS].
+  - (* call *)
+    destruct (thr s t0) as [| |l| | |todo k|nm mf bf cur todo k|ok] eqn:E; try discriminate.
+    unfold tstep. rewrite E.
+    destruct (call_nrem c w t0 nm mf bf cur todo k s) as (A & _ & _ & K).
+    destruct (call_spec c w t0 nm mf bf cur todo k s) as (PO & PE & (p' & T & PP) & _).
+    destruct (call_log c w t0 nm mf bf cur todo k s) as (evs & LG & _).
+    split; [lia|]. intros H. assert (H0 : g_nrem s = nrem0) by lia.
+    destruct (B H0) as (MG & ST & D). destruct (K ltac:(lia)) as (_ & _ & KM & _).
+    split; [apply KM; exact MG|split].
+    + destruct ST as [X|X]; [left; exact X|right; rewrite PO; exact X].
+    + destruct D as [D|[D|D]].
+      * left. rewrite PE. exact D.
+      * destruct D as (t' & cur' & todo' & k' & D). destruct (Nat.eq_dec t' t0) as [->|NE].
+        -- right. right. rewrite E in D. inversion D; subst.
+           exists n, cur'. apply (call_logs_event c w t0 n None (Some f) cur' todo' k' s eq_refl).
+        -- right. left. exists t', cur', todo', k'. rewrite T, upd_other by exact NE. exact D.
+      * right. right. destruct D as (a & d & X). exists a, d. rewrite LG. apply in_or_app. right. exact X.
+  - (* visit *)
+    destruct (thr s t0) as [| |l| | |todo k|nm mf bf cur todo k|ok] eqn:E; try discriminate.
+    destruct todo as [|nm todo]; [discriminate|].
+    unfold tstep. rewrite E.
+    destruct (visit_spec c w t0 nm todo k s Hpop) as (PO & PE & LG & T & MO & _ & _ & _ & _ & NR & _).
+    split; [rewrite NR; exact N0|]. rewrite NR. intros H. destruct (B H) as (MG & ST & D).
+    split; [rewrite MO; exact MG|split].
+    + destruct ST as [X|X]; [left; exact X|right]. rewrite PO. destruct (visit_mf w s nm); [right|]; exact X.
+    + destruct D as [D|[D|D]].
+      * destruct (Nat.eq_dec nm n) as [->|NE].
+        -- right. left. exists t0, (m_get (mods s) n), todo, k. rewrite T, upd_same.
+           unfold visit_pc. rewrite (@settled_visit_mf w s n o MG ST), D. reflexivity.
+        -- left. rewrite PE, m_get_del_other by exact NE. exact D.
+      * right. left. destruct D as (t' & cur' & todo' & k' & D). exists t', cur', todo', k'.
+        destruct (Nat.eq_dec t' t0) as [->|NE]; [rewrite E in D; discriminate|].
+        rewrite T, upd_other by exact NE. exact D.
+      * right. right. destruct D as (a & d & X). exists a, d. rewrite LG. exact X.
+  - (* everything else *)
+    destruct (tstep_quiet c w t0 s IC IS) as (PO & PE & MO & _ & L2 & (p' & NP & T) & _).
+    assert (NR := tstep_quiet_nrem c w t0 s IC).
+    split; [rewrite NR; exact N0|]. rewrite NR. intros H. destruct (B H) as (MG & ST & D).
+    split; [rewrite MO; exact MG|split].
+    + destruct ST as [X|X]; [left; exact X|right; rewrite PO; exact X].
+    + destruct D as [D|[D|D]].
+      * left. rewrite PE. exact D.
+      * right. left. destruct D as (t' & cur' & todo' & k' & D). exists t', cur', todo', k'.
+        destruct T as [T|T]; rewrite T; [|exact D].
+        destruct (Nat.eq_dec t' t0) as [->|NE]; [rewrite D in IC; discriminate|].
+        rewrite upd_other by exact NE. exact D.
+      * right. right. destruct D as (a & d & X). exists a, d. apply L2. exact X.
+Qed.
+End TrackB.
+
+Lemma GP_reachable (w : world) (scanned : bool) (s : st) :
+  glue_pop_before_call = true -> glue_under_lock = true -> 1 <= w_base w ->
+  reachable src_cfg w scanned s -> GI w s /\ GP s.
+Proof.
+  intros Hp Hl Hb R.
+  refine (@reachable_ind src_cfg w scanned (fun s => GI w s /\ GP s) _ _ s R).
+  - split; [apply GI_init; assumption|apply GP_init].
+  - intros s0 l [G P]. destruct l as [e|t]; simpl.
+    + split; [apply GI_env; exact G|apply GP_env; assumption].
+    + split; [apply GI_tstep; assumption|apply GP_tstep; assumption].
+Qed.
+
+Lemma calledB_dec f (l : list event) :
+  (exists n d, In (EvCallB f n d) l) \/ ~ (exists n d, In (EvCallB f n d) l).
+Proof.
+  induction l as [|e l [IH|IH]].
+  - right. intros (n & d & []).
+  - left. destruct IH as (n & d & H). exists n, d. right. exact H.
+  - destruct e as [o0 n0 d0|f' n' d'|f1 n1 o1|b1 n1|n1|t1 b1];
+      try (right; intros (n & d & [H|H]); [discriminate|apply IH; eauto]).
+    destruct (Nat.eq_dec f' f) as [->|NE].
+    + left. exists n', d'. left. reflexivity.
+    + right. intros (n & d & [H|H]); [inversion H; congruence|apply IH; eauto].
+Qed.
+
+Theorem timely_builtin (w : world) (scanned : bool) (ls1 ls2 : list label) (t n f : nat) :
+  glue_pop_before_call = true -> glue_under_lock = true -> 1 <= w_base w ->
+  let s1 := run src_cfg w ls1 (init w scanned) in
+  (thr s1 t = PIdle \/ exists b, thr s1 t = PDone b) ->
+  pendingB w s1 n f -> g_since_cache s1 = false -> g_since_snap s1 = false ->
+  let s2 := run src_cfg w ls2 s1 in
+  g_nrem s2 = g_nrem s1 ->
+  forall new, log s2 = new ++ log s1 -> In (EvRet t true) new -> calledB s2 f.
+Proof.
+  intros Hp Hl Hb s1 IDLE ((o & MG & ST) & PD) F1 F2 s2 NR new LG RET.
+  assert (R1 : reachable src_cfg w scanned s1) by (exists ls1; reflexivity).
+  destruct (GP_reachable Hp Hl Hb R1) as [G1 P1].
+  set (QQ := Qb w t n o f (length (mods s1)) (g_nrem s1) (log s1)).
+  set (TT := TB w n o f (g_nrem s1)).
+  assert (T1 : TT s1).
+  { split; [apply le_n|]. intros _. split; [exact MG|split; [exact ST|left; exact PD]]. }
+  assert (Q1 : QQ s1).
+  { split; [apply le_n|]. intros _. unfold QBb.
+    split; [exact F1|split; [exact F2|split; [exact MG|split; [apply le_n|split]]]].
+    - exists []. split; [reflexivity|]. intros _ [].
+    - intros _. split; [|split; [|split]].
+      + destruct (gi_A1 G1 F1) as [Z|Z]; [lia|]. rewrite Z.
+        assert (length (g_snap_cache s1) < length (mods s1)); [|lia].
+        eapply pigeon; [exact (gi_A4 G1)|exact (gi_A2 G1 F1)| |exact MG].
+        intros H. apply In_fst_ex in H. destruct H as [b H].
+        rewrite (gp_A P1 F1 _ _ H) in PD. discriminate.
+      + destruct (in_dec Nat.eq_dec n (map fst (g_snap_scan s1))) as [IN|NIN].
+        * left. apply In_fst_ex in IN. destruct IN as [b H].
+          assert (b = o) by (pose proof (gi_K2 G1 F2 _ _ H); congruence). subst. exact H.
+        * right. eapply pigeon; [exact (gi_K4 G1)|exact (gi_K2 G1 F2)|exact NIN|exact MG].
+      + intros l X. destruct IDLE as [Y|[b Y]]; rewrite Y in X; discriminate.
+      + intros x X. destruct IDLE as [Y|[b Y]]; rewrite Y in X; discriminate. }
+  assert (STEP : forall ls s, reachable src_cfg w scanned s -> QQ s -> TT s ->
+            reachable src_cfg w scanned (run src_cfg w ls s) /\ QQ (run src_cfg w ls s)).
+  { induction ls as [|l r IH]; intros s R H HT; [split; assumption|].
+    simpl.
+    destruct (GP_reachable Hp Hl Hb R) as [G P].
+    assert (WC : WCB n o f (g_nrem s1) s).
+    { intros NE t0 k E FS I. destruct HT as [_ HT]. destruct (HT NE) as (_ & _ & D).
+      assert (SC : scan_of (thr s t0) = Some ([], k)) by (rewrite E; reflexivity).
+      destruct (gp_K P FS _ SC _ _ I) as [[]|PN].
+      destruct D as [D|[(t' & cur & todo & k' & D)|D]]; [congruence| |exact D].
+      exfalso.
+      assert (L1 : lock s = Some t') by (apply (@gi_L1 w s G t'); rewrite D; reflexivity).
+      assert (L2 : lock s = Some t0) by (apply (@gi_L1 w s G t0); rewrite E; reflexivity).
+      assert (t' = t0) by congruence. subst. rewrite E in D. discriminate. }
+    apply IH.
+    - destruct R as [ms E]. exists (ms ++ [l]). rewrite run_app. simpl. rewrite <- E. reflexivity.
+    - destruct l as [e|t0]; simpl; [apply Qb_env; [exact Hb|exact H]|].
+      apply Qb_tstep; auto.
+    - destruct l as [e|t0]; simpl; [apply TB_env; exact HT|apply TB_tstep; [exact Hp|exact HT]]. }
+  destruct (STEP ls2 s1 R1 Q1 T1) as [R2 [_ Q2]]. fold s2 in Q2, R2.
+  destruct (Q2 NR) as (_ & _ & _ & _ & (new' & LN & NRT) & _).
+  assert (new' = new) by (rewrite LG in LN; apply app_inv_tail in LN; congruence). subst new'.
+  destruct (calledB_dec f (log s2)) as [C|C]; [exact C|].
+  exfalso. apply NRT; [exact C|exact RET].
+Qed.
+
+Definition tb_world := mkworld 1 [OMod None; OMod (Some (mkfn BOk []))] [mkfn BOk []].
+Definition tb_hist :=
+  [LEnv (EReg 0); LEnv (EIR (IIns 1 1))] ++ repeat (LThr 0) 8 ++ [LEnv (EIR (IIns 0 0))] ++ repeat (LThr 1) 4.
+Example timely_builtin_hyp_met :
+  let s1 := run src_cfg tb_world tb_hist (init tb_world true) in
+  thr s1 0 = PDone true /\ thr s1 1 = PLocked /\ thr s1 2 = PIdle
+  /\ pendingB tb_world s1 0 0 /\ g_since_cache s1 = false /\ g_since_snap s1 = false /\ g_late s1 = false.
+Proof.
+  vm_compute. repeat split; auto. exists 0. split; [reflexivity|left; reflexivity].
+Qed.
